@@ -145,6 +145,16 @@ func c05(c *ctx) {
 				}
 				if h, _ := w.est(0, w.nodes[0], w.nextCP, pdrs, fars, qers, "c05"); h != nil {
 					mine = append(mine, h)
+					if r.Intn(4) == 0 {
+						// every PDR leaves the session: it matches no traffic any more, but it still holds its FARs, QERs, UE address
+						// and its place in the store until it ends
+						var ids []uint32
+						for _, p := range h.pdrs {
+							ids = append(ids, uint32(p.ID))
+						}
+						w.mod(0, h.up, modReq{rp: ids}, "remove-all-pdrs")
+						continue
+					}
 					if shape == 4 { // an accepted modification that removes a rule from the middle of the lists
 						w.mod(0, h.up, modReq{rp: []uint32{2}, rf: []uint32{2}, rq: []uint32{2}}, "remove-middle")
 					}
